@@ -17,7 +17,10 @@ EXPLANATION = (
     "(c) in FrameDecoder::reset and force_dict the dictionary initialisation is dominated by a successful lookup "
     "whose failure is DictNotProvided, and using_dict is recorded; (d) dictionary content and the using_dict marker "
     "are cleared by the per-frame reset; (e) in repeat_from_dict the dictionary slices are entailed in-bounds by "
-    "the NotEnoughBytesInDictionary guard and the window test leads to OffsetTooBig. "
+    "the NotEnoughBytesInDictionary guard and the window test leads to OffsetTooBig; (f) the dictionary-reach counter "
+    "grows by exactly the bytes appended on every path; (g) the frame header's dictionary id has the width the "
+    "descriptor's flag says and is the little-endian number of exactly those bytes (loop form, or from_le_bytes of "
+    "a fresh zeroed array whose only write is that read). "
     "Not decided: decoding correctness for all dictionary/frame pairs (runtime values).")
 ASSUMPTIONS = ["integer casts between unsigned widths are value-preserving on the guarded ranges",
                "BTreeMap::get returns None for an absent key (std)"]
@@ -365,6 +368,26 @@ def run(ctx):
                           observed=desc)
         ctx.floor(R6, n_paths, 6, "counter/append paths")
     ctx.guard(R6, "counter", counter)
+
+    # (g) which dictionary a frame names: the id field's width table and its little-endian assembly (same rule
+    # instances as C14's frame-descriptor reader).  A wrong id refuses a frame whose dictionary was given and lets a
+    # frame through whose dictionary was not.
+    from . import c14, c14_headers
+    R7 = "C09.layout.dict-id"
+    start = len(ctx.obs)
+    ctx.only = lambda rule, key: (rule, key) in {("C14.layout.frame-descriptor", "assembly"), ("C14.layout.frame-descriptor", "sizes")}
+    try:
+        c14_headers._frame(ctx, c14.SPEC)
+    finally:
+        ctx.only = None
+    keep = []
+    for o in ctx.obs[start:]:
+        if o.rule == "C14.layout.frame-descriptor" and (o.key in ("reader::did-little-endian", "reader::le-fields") or "dictionary_id_bytes" in o.key) or o.status != "ok" and "anchor" in (o.msg or ""):
+            o.rule = R7
+            keep.append(o)
+    ctx.obs[start:] = keep
+    ctx.notes[:] = [n_ for n_ in ctx.notes if "INFO latent" not in n_]
+    ctx.floor(R7, len(keep), 3, "dictionary id field obligations")
 
 
 def _inline_local(ix, g):
